@@ -30,6 +30,20 @@ def design(ctx):
         g = vlib.tlc("StreamsMC", guard, workers=4, timeout=600, heap="4g")
         if not (g.violated and inv in g.out):
             raise vlib.Broken("vacuity guard %s no longer violates %s: the design model lost its teeth" % (guard, inv))
+    # per-stream lazily created states and reductions over them (StreamStore.tla): the loop as coded sums
+    # every created state whatever the allocation pattern; three wrong loops must be refuted
+    r = vlib.tlc("StreamStore", "StreamStore_ascoded", workers=2, timeout=600, heap="2g")
+    if r.code != 0:
+        if r.violated:
+            ctx.violation("design model StreamStore (as coded) violates %s\n%s" % (r.violated_names(), r.out[-2000:]), tags={"design": "StreamStore_ascoded"})
+        else:
+            raise vlib.Broken("TLC failed on StreamStore_ascoded: %s" % r.out[-2000:])
+    st += r.distinct
+    tr += r.generated
+    for guard in ("StreamStore_stopfirst", "StreamStore_dense", "StreamStore_lastonly"):
+        g = vlib.tlc("StreamStore", guard, workers=1, timeout=300, heap="2g")
+        if not (g.violated and "ReduceIsSum" in g.out):
+            raise vlib.Broken("vacuity guard %s no longer violates ReduceIsSum" % guard)
     return st, tr
 
 
